@@ -196,6 +196,9 @@ impl<'a> RecordBuilder<'a> {
             DataType::Int2 => self.set_int2(col_idx, value as i16),
             DataType::Int4 => self.set_int4(col_idx, value as i32),
             DataType::Bool => self.set_bool(col_idx, value != 0),
+            // an integer value for a floating-point column is that number, not its bit pattern
+            DataType::Float8 => self.set_float8(col_idx, value as f64),
+            DataType::Float4 => self.set_float4(col_idx, value as f32),
             _ => self.set_int8(col_idx, value),
         }
     }
